@@ -11,6 +11,12 @@
    The choices C18 leaves open (when suppression is entered, timer lengths, steady emission, whether the
    announcement of PublishThenRecv goes out before or after the packet is handled) are
    existentially quantified in Svs and pinned here by post.state / post.timer / post.out.
+   Sequence numbers are recorded in SCALED CLASSES (Svs, header): below Svs!HiSeq as they are, HiSeq + k for
+   cfg.hi + k (cfg.hi: decimal string, the executor's; absent = no high class), Svs!BadSeq for a number the
+   instance showed that is in neither class. Groups of up to 100 nodes (NodeOrder <- Nodes20 .. Nodes101): an
+   execution of a smaller group is also one of a larger one whose other nodes are never heard of (the harness
+   pads the recorded vectors with zero entries, so that executions of an instance and of its loop-back peer -
+   one node more - are judged in one run).
    Events may carry more fields than the actions read (x: which member of a byte-level packet class was delivered).
 
    A step that can only be explained by a named deviation (Dev) is accepted and reported as
